@@ -73,6 +73,7 @@ type Contract struct {
 	Closures  map[int][]GhostUpdate // ghost updates at MakeClosure ordinal k
 	Ghosts    []GhostStmt
 	Thread    bool
+	GhostTags []string
 	Asserts   []*SiteAssert
 	ifaceRecv string
 	ifacePkg  *Contract
@@ -110,6 +111,7 @@ type SpecFunc struct {
 	Src     string
 	Pkg     *packages.Package
 	Opaque  bool // uninterpreted (no body)
+	Defined bool // uninterpreted symbol plus a definitional axiom (heap-independent bodies only): keeps terms small
 	File    string
 	Line    int
 	TwoHeap bool
@@ -366,6 +368,8 @@ func (s *Specs) loadSpecFile(w *World, path string, pkg *packages.Package, trust
 			cur.NoSafety = true
 		case "thread":
 			cur.Thread = true
+		case "ghost-tags":
+			cur.GhostTags = append(cur.GhostTags, strings.Fields(rest)...)
 		case "implements":
 			cur.Implement = rest
 		case "receiver":
@@ -567,6 +571,10 @@ func (s *Specs) loadSpecFile(w *World, path string, pkg *packages.Package, trust
 				}
 			}
 			resSrc := tail
+			if eq := strings.Index(tail, " := "); eq >= 0 {
+				sf.Defined = true
+				tail = tail[:eq] + " = " + tail[eq+4:]
+			}
 			if eq := strings.Index(tail, " = "); eq >= 0 {
 				resSrc = strings.TrimSpace(tail[:eq])
 				b, err := parseExprAt(strings.TrimSpace(tail[eq+3:]), path, l.line)
